@@ -1,6 +1,7 @@
 import SJ.Proofs.Tables
 import SJ.Proofs.Escape
 import SJ.Proofs.WalkSafe
+import SJ.Proofs.MarshalExact
 /-
 C10 — MarshalJSON emits valid JSON denoting the same document.
 -/
@@ -40,5 +41,38 @@ theorem C10_string_not_utf8 (s : List UInt8) (hs : ¬ WFUtf8 s) (fuel : Nat) (hf
 /-- Marshalling never panics and always terminates, on any tape. -/
 theorem C10_marshal_total (pj : PJ) (i : Iter) (dst : Bytes) (hv : SJ.WalkSafe.Iter.Valid pj i) :
     SJ.WalkSafe.OkOrErr (Iter.marshalBuf pj i dst) := SJ.WalkSafe.marshalBuf_safe pj i dst hv
+
+open SJ.Layout SJ.WalkLayout SJ.MarshalExact in
+/-- **MarshalJSON writes exactly the canonical text of the document.** For every tape and located value `v` on it
+    (gaps anywhere), an iterator standing on `v` marshals to `render v`: `null`/`true`/`false`, integers in
+    decimal, floats by `appendFloat` (C18), strings quoted and escaped (C10_escape_*), arrays and objects with
+    `,` and `:` separators, members in tape order; the text depends on the abstract document only
+    (`render v = renderJ (erase v)`), never on NOP entries. -/
+theorem C10_marshal_exact (pj : PJ) (v : LVal) (i : Iter) (dst : Bytes) (hok : Ok pj v) (hf : FloatsOk v)
+    (hon : OnNode pj v i) :
+    ValAt pj (erase v) v.pos v.fin ∧ Iter.marshalBuf pj i dst = .ok (dst ++ renderJ (erase v)) :=
+  marshalBuf_doc pj v i dst hok hf hon
+
+open SJ.Layout SJ.WalkLayout SJ.MarshalExact in
+/-- … and returns an error (never malformed text) exactly when the value contains a float that has no JSON text
+    (NaN, ±Inf — which no parse produces). -/
+theorem C10_marshal_error (pj : PJ) (v : LVal) (i : Iter) (dst : Bytes) (hok : Ok pj v) (hf : ¬ FloatsOk v)
+    (hon : OnNode pj v i) : Iter.marshalBuf pj i dst = .error .generic := marshalBuf_node_error pj v i dst hok hf hon
+
+open SJ.Layout SJ.WalkLayout SJ.MarshalExact in
+/-- The root iterator (`pj.Iter().MarshalJSON()`) writes the root values, newline-separated. -/
+theorem C10_marshal_roots (pj : PJ) (v : LVal) (vs : List LVal) (dst : Bytes) (h : OkRoots pj (v :: vs) 0)
+    (hfs : ∀ x ∈ v :: vs, FloatsOk x) :
+    Iter.marshalBuf pj (Iter.ofPJ pj) dst = .ok (dst ++ renderRoots (v :: vs)) := marshalBuf_ofPJ pj v vs dst h hfs
+
+open SJ.Layout SJ.WalkLayout SJ.MarshalExact in
+/-- `Array.MarshalJSON` and `Object.Parse` + `Elements.MarshalJSON` write the same text as the iterator. -/
+theorem C10_array_elements_agree (pj : PJ) (p e : Nat) :
+    (∀ es : LVals, Ok pj (.arr p e es) → FloatsOk (.arr p e es) →
+      View.arrMarshal pj { lim := e, off := p + 1 } = .ok (render (.arr p e es))) ∧
+    (∀ ms : LMems, Ok pj (.obj p e ms) → TightMs1 ms → FloatsOk (.obj p e ms) →
+      ∃ es, View.parse pj { lim := e, off := p + 1 } #[] (fuelOf pj) = .ok es ∧
+        View.elemsMarshal pj es = .ok (render (.obj p e ms))) :=
+  ⟨fun es a b => arrMarshal_arr pj p e es a b, fun ms a b c => elemsMarshal_obj pj p e ms a b c⟩
 
 end SJ.Properties.C10
